@@ -6,8 +6,25 @@ field sequence, the RFC's field list (names as in the RFC text) under its IANA
 number, and a reference encoder (`Spec.encode`: integers most significant octet
 first, <character-string>s with one length octet, uncompressed <domain-name>s,
 trailing opaque data, (key, length, value) triples); IPSECKEY (RFC 4025) has
-its own reference encoder. The model side is the table `schemaOf` driving the
-generic reader / writer `decAll` / `encAll` (Model/RData.lean).
+its own reference encoder, OPT's RDATA is RFC 6891's option list. The model
+side is the table `schemaOf` driving the generic reader / writer `decAll` /
+`encAll` (Model/RData.lean).
+
+Contents
+ 1. `schema_matches_rfc`, `schema_only_rfc`, `iana_codes`: the model's table is the RFC table.
+ 2. `rfc_encoding`, `rfc_type_code`, `rfc_record`: serialising field values gives the reference
+    encoding byte for byte, under the IANA number.
+ 3. `rfc_ipseckey`, `rfc_ipseckey_parse`, `rfc_opt_rdata`, `rfc_opt_rdata_parse`.
+ 4. `rfc_decode_field`, `rfc_parse`, `rfc_parse_record`: parsing the reference encoding gives
+    the field values back (proved here from the field readers, independently of the round-trip
+    files).
+ 5. `loc_version_rejected`, `unordered_triples_rejected`, `nsec_unordered_rejected`,
+    `svcb_unordered_rejected`, `txt_overrun_rejected`, `triples_overrun_rejected`,
+    `options_overrun_rejected`, …: encodings that break a structural rule are `Err`.
+
+Not covered by the RFC table as written: RFC 1183 3.2 makes the ISDN sub-address <sa> optional;
+the library reads and writes both strings always, and the layout row (like `schemaOf`) lists
+both (known finding on ISDN without sub-address).
 -/
 import SimpleDnsModel.Lemmas.Rfc
 namespace Dns
@@ -97,8 +114,7 @@ theorem iana_mnemonics : ∀ l ∈ Spec.layouts,
     (l.mnemonic = "NSAP-PTR" ∧ TYPE.ofCode l.code = .NSAP_PTR) := by decide
 
 /-- every number round-trips through the library's `TYPE` (unknown numbers are kept) -/
-theorem type_toCode_ofCode (c : Nat) : (TYPE.ofCode c).toCode = c := by
-  unfold TYPE.ofCode; split <;> rfl
+theorem type_code_roundtrip (c : Nat) : (TYPE.ofCode c).toCode = c := Rfc.type_toCode_ofCode c
 
 /-! ### 2. serialising RFC field values gives the RFC encoding -/
 
@@ -182,7 +198,7 @@ theorem rfc_type_code (r : RR) {code : Nat} {vs : List Val} (h : r.rdata = .flat
   refine ⟨?_, Rfc.beN_eq_octetsOf 2 code⟩
   unfold RR.writeCommon
   rw [h]
-  simp only [RData.typeOf, type_toCode_ofCode]
+  simp only [RData.typeOf, Rfc.type_toCode_ofCode]
   exact List.take_left' (by simp)
 
 /-- the whole record: owner name, TYPE = the IANA number, CLASS (with the mDNS cache-flush bit),
@@ -198,7 +214,7 @@ theorem rfc_record {r : RR} {code : Nat} {ks : List FKind} {vs : List Val}
   refine ⟨_, he, ?_⟩
   unfold RR.write RR.writeCommon
   rw [h, hw]
-  simp [RData.typeOf, type_toCode_ofCode]
+  simp [RData.typeOf, Rfc.type_toCode_ofCode]
 
 /-! ### 3. IPSECKEY (RFC 4025) -/
 
@@ -222,5 +238,405 @@ theorem rfc_ipseckey {prec alg : Nat} {gw : Gateway} {key : Bytes}
     RData.write (.ipseckey prec alg gw key) =
       .ok (Spec.encodeIpseckey prec alg gw.toSpec key) :=
   rfc_ipseckey_any prec alg gw key
+
+/-- IPSECKEY, parse direction: the reference encoding of well-formed values (RDATA of the whole
+cut buffer after `pre`) reads back as those values -/
+theorem rfc_ipseckey_parse {prec alg : Nat} {gw : Gateway} {key : Bytes} (pre : Bytes)
+    (hp : prec < 256) (ha : alg < 256) (hg : gw.WF) :
+    ipseckeyParse (pre ++ Spec.encodeIpseckey prec alg gw.toSpec key) pre.length
+      = .ok (.ipseckey prec alg gw key,
+          (pre ++ Spec.encodeIpseckey prec alg gw.toSpec key).length) := by
+  have hpn : (UInt8.ofNat prec).toNat = prec := by simp [UInt8.toNat_ofNat']; omega
+  have han : (UInt8.ofNat alg).toNat = alg := by simp [UInt8.toNat_ofNat']; omega
+  have henc : Spec.encodeIpseckey prec alg gw.toSpec key
+      = UInt8.ofNat prec :: UInt8.ofNat gw.tag :: UInt8.ofNat alg :: (gw.write ++ key) := by
+    have := rfc_ipseckey_any prec alg gw key
+    simp only [RData.write, Out.ok.injEq] at this
+    exact this.symm
+  rw [henc]
+  generalize hd : pre ++ UInt8.ofNat prec :: UInt8.ofNat gw.tag :: UInt8.ofNat alg
+    :: (gw.write ++ key) = d
+  have i0 : idx d pre.length = .ok (UInt8.ofNat prec) :=
+    Rfc.idx_at (a := pre) (z := UInt8.ofNat gw.tag :: UInt8.ofNat alg :: (gw.write ++ key))
+      hd.symm rfl
+  have i1 : idx d (pre.length + 1) = .ok (UInt8.ofNat gw.tag) :=
+    Rfc.idx_at (a := pre ++ [UInt8.ofNat prec]) (z := UInt8.ofNat alg :: (gw.write ++ key))
+      (by simp [← hd]) (by simp)
+  have i2 : idx d (pre.length + 2) = .ok (UInt8.ofNat alg) :=
+    Rfc.idx_at (a := pre ++ [UInt8.ofNat prec, UInt8.ofNat gw.tag]) (z := gw.write ++ key)
+      (by simp [← hd]) (by simp)
+  have hlen : d.length = pre.length + 3 + gw.write.length + key.length := by
+    simp [← hd]; omega
+  unfold ipseckeyParse
+  rw [if_neg (by omega), i0, i1, i2]
+  simp only [Out.bind_ok, hpn, han]
+  have hdd : d = (pre ++ [UInt8.ofNat prec, UInt8.ofNat gw.tag, UInt8.ofNat alg]) ++
+      (gw.write ++ key) := by simp [← hd]
+  cases gw with
+  | none =>
+    simp only [Gateway.tag, Gateway.write, List.nil_append, List.length_nil] at *
+    have : (UInt8.ofNat 0).toNat = 0 := rfl
+    simp only [this, Out.bind_ok]
+    rw [Rfc.slice_at (a := pre ++ [UInt8.ofNat prec, UInt8.ofNat 0, UInt8.ofNat alg]) (m := key)
+      (z := []) (by simp [hdd]) (by simp) (by simp; omega)]
+    simp
+  | v4 a =>
+    simp only [Gateway.tag, Gateway.write, beN_length] at *
+    have : (UInt8.ofNat 1).toNat = 1 := rfl
+    simp only [this]
+    rw [if_neg (by omega)]
+    rw [Rfc.slice_at (a := pre ++ [UInt8.ofNat prec, UInt8.ofNat 1, UInt8.ofNat alg])
+      (m := beN 4 a) (z := key) hdd (by simp) (by simp)]
+    simp only [Out.bind_ok, Out.pure_eq, deN_beN 4 a (by simpa [Gateway.WF] using hg)]
+    rw [Rfc.slice_at (a := pre ++ [UInt8.ofNat prec, UInt8.ofNat 1, UInt8.ofNat alg] ++ beN 4 a)
+      (m := key) (z := []) (by simp [hdd]) (by simp) (by simp; omega)]
+    simp
+  | v6 a =>
+    simp only [Gateway.tag, Gateway.write, beN_length] at *
+    have : (UInt8.ofNat 2).toNat = 2 := rfl
+    simp only [this]
+    rw [if_neg (by omega)]
+    rw [Rfc.slice_at (a := pre ++ [UInt8.ofNat prec, UInt8.ofNat 2, UInt8.ofNat alg])
+      (m := beN 16 a) (z := key) hdd (by simp) (by simp)]
+    simp only [Out.bind_ok, Out.pure_eq, deN_beN 16 a (by simpa [Gateway.WF] using hg)]
+    rw [Rfc.slice_at (a := pre ++ [UInt8.ofNat prec, UInt8.ofNat 2, UInt8.ofNat alg] ++ beN 16 a)
+      (m := key) (z := []) (by simp [hdd]) (by simp) (by simp; omega)]
+    simp
+  | domain n =>
+    simp only [Gateway.tag, Gateway.write] at *
+    have : (UInt8.ofNat 3).toNat = 3 := rfl
+    simp only [this]
+    have hn := Name.parse_write (show Name.WF n from hg)
+      (pre ++ [UInt8.ofNat prec, UInt8.ofNat 3, UInt8.ofNat alg]) key
+    rw [← hdd] at hn
+    simp only [List.length_append, List.length_cons, List.length_nil] at hn
+    rw [hn]
+    simp only [Out.bind_ok, Out.pure_eq]
+    rw [Rfc.slice_at (a := pre ++ [UInt8.ofNat prec, UInt8.ofNat 3, UInt8.ofNat alg] ++ Name.write n)
+      (m := key) (z := []) (by simp [hdd]) (by simp [Name.write_length]; omega)
+      (by simp [Name.write_length] at hlen ⊢; omega)]
+    simp
+
+/-! ### 3b. OPT (RFC 6891 6.1.2): the RDATA is the list of {OPTION-CODE, OPTION-LENGTH, OPTION-DATA}
+
+The fixed part of the OPT pseudo-record (CLASS = UDP size, TTL = extended RCODE and version) is
+property C09. -/
+
+theorem rfc_opt_rdata (o : OptData) :
+    RData.write (.opt o) = .ok (Spec.Rfc6891.encodeOptions o.codes) := by
+  simp [RData.write, encOptCodes, Rfc.encTlvs22_eq_encodeOptions]
+
+theorem rfc_opt_rdata_parse (pre : Bytes) (xs : List (Nat × Bytes))
+    (hx : ∀ x ∈ xs, x.1 < 65536 ∧ x.2.length < 65536) :
+    optLoop (pre ++ Spec.Rfc6891.encodeOptions xs) pre.length []
+      = .ok (xs, (pre ++ Spec.Rfc6891.encodeOptions xs).length) := by
+  have := Rfc.optLoop_prefix xs pre [] [] hx
+  simp only [List.append_nil] at this
+  rw [← Rfc.encTlvs22_eq_encodeOptions, this, optLoop, dif_neg (by omega)]
+  simp
+
+/-! ### 4. parsing the RFC encoding gives the RFC's field values -/
+
+/-- One field: the reader of kind `k`, on the reference encoding of a value under the matching RFC
+kind, returns the value and the cursor just past the encoding. A field that reads to the end of
+the RDATA (opaque rest, strings, triples) must be followed by nothing. -/
+theorem rfc_decode_field {k : FKind} {sk : Spec.SKind} {v : Val} (pre post : Bytes)
+    (hm : kindMatches k sk = true) (hv : FieldOK k v) (hs : k.Safe)
+    (ht : Rfc.tailKind k = true → post = []) :
+    decField (pre ++ (Spec.encodeField sk v.toSpec ++ post)) k pre.length
+      = .ok (v, pre.length + (Spec.encodeField sk v.toSpec).length) := by
+  rw [← encField_eq_rfc hm hv]
+  exact Rfc.decode_field k v pre post hv hs ht
+
+theorem rfc_decode_field_int (pre post : Bytes) (w n : Nat) (h : n < 256 ^ w) :
+    decField (pre ++ (Spec.octetsOf w n ++ post)) (.int w) pre.length
+      = .ok (.int n, pre.length + w) := by
+  rw [← Rfc.beN_eq_octetsOf]; exact Rfc.decode_int pre post w n h
+
+theorem rfc_decode_field_charstr (pre s post : Bytes) (hs : s.length ≤ 255) :
+    decField (pre ++ (Spec.encodeField .characterString (.octets s) ++ post)) .charstr pre.length
+      = .ok (.bytes s, pre.length + (s.length + 1)) :=
+  Rfc.decode_charstr pre s post hs
+
+theorem rfc_decode_field_name (pre post : Bytes) (c : Bool) (n : Name) (h : Name.WF n) :
+    decField (pre ++ (Spec.encLabels n ++ post)) (.name c) pre.length
+      = .ok (.name n, pre.length + (Spec.encLabels n).length) := by
+  rw [← Rfc.nameWrite_eq_encLabels, Name.write_length]; exact Rfc.decode_name pre post c n h
+
+theorem rfc_decode_field_rest (pre b : Bytes) :
+    decField (pre ++ b) .rest pre.length = .ok (.bytes b, pre.length + b.length) :=
+  Rfc.decode_rest pre b
+
+theorem rfc_decode_field_strs (pre : Bytes) (ss : List Bytes) (hs : ∀ s ∈ ss, s.length ≤ 255) :
+    decField (pre ++ Spec.encStrings ss) .strs pre.length
+      = .ok (.strs ss, pre.length + (Spec.encStrings ss).length) := by
+  rw [← Rfc.encStrs_eq_encStrings]; exact Rfc.decode_strs pre ss hs
+
+theorem rfc_decode_field_tlvs (pre : Bytes) (kw lw : Nat) (strict : Bool) (hkl : 0 < kw + lw)
+    (xs : List (Nat × Bytes)) (hx : ∀ x ∈ xs, x.1 < 256 ^ kw ∧ x.2.length < 256 ^ lw)
+    (hinc : strict = true → KeysIncreasing xs) :
+    decField (pre ++ Spec.encTriples kw lw xs) (.tlvs kw lw strict) pre.length
+      = .ok (.tlvs xs, pre.length + (Spec.encTriples kw lw xs).length) := by
+  rw [← Rfc.encTlvs_eq_encTriples]; exact Rfc.decode_tlvs pre kw lw strict hkl xs hx hinc
+
+/-- Parsing the reference RFC encoding of field values that fit a supported type yields exactly
+those values, and consumes exactly the encoding (`pre` is whatever precedes the RDATA in the
+message; the typed parser sees the message cut at the end of the RDATA). -/
+theorem rfc_parse {code : Nat} {ks : List FKind} {vs : List Val} {bytes : Bytes} (pre : Bytes)
+    (hs : schemaOf code = some ks) (hok : AllOK ks vs) (hc : flatCheck code vs = true)
+    (he : Spec.encode code (vs.map Val.toSpec) = some bytes) :
+    parseTyped (pre ++ bytes) pre.length (TYPE.ofCode code)
+      = .ok (.flat code vs, pre.length + bytes.length) := by
+  rw [(rfc_encoding hs hok hc).2] at he
+  cases he
+  exact Rfc.parseTyped_enc pre hs hok hc
+
+/-- The same for a whole record body: TYPE (the IANA number), two CLASS octets, four TTL octets,
+RDLENGTH, the reference encoding, then the rest of the message. `RData::parse` dispatches on the
+type number, cuts the message at RDLENGTH and returns the RFC's field values. -/
+theorem rfc_parse_record {code : Nat} {ks : List FKind} {vs : List Val} {bytes : Bytes}
+    (pre cb tb post : Bytes) (hcb : cb.length = 2) (htb : tb.length = 4)
+    (hs : schemaOf code = some ks) (hok : AllOK ks vs) (hc : flatCheck code vs = true)
+    (he : Spec.encode code (vs.map Val.toSpec) = some bytes) (hlen : bytes.length < 65536) :
+    RData.parse (pre ++ (Spec.octetsOf 2 code ++ (cb ++ (tb ++ (Spec.octetsOf 2 bytes.length ++
+        (bytes ++ post)))))) pre.length
+      = .ok (.flat code vs, pre.length + 10 + bytes.length) := by
+  rw [(rfc_encoding hs hok hc).2] at he
+  cases he
+  rw [← Rfc.beN_eq_octetsOf, ← Rfc.beN_eq_octetsOf]
+  exact Rfc.rdataParse_enc pre cb tb post hcb htb hs hok hc hlen
+
+/-! ### 5. encodings that break a structural rule are rejected -/
+
+/-- (general form of the LOC rule) when the type's extra check fails on the decoded values, the
+record is rejected on parse and refused on write -/
+theorem check_failed_rejected {code : Nat} {ks : List FKind} {vs : List Val} (pre : Bytes)
+    (hs : schemaOf code = some ks) (hok : AllOK ks vs) (hc : flatCheck code vs = false) :
+    parseTyped (pre ++ encAll ks vs) pre.length (TYPE.ofCode code) = .err ∧
+    RData.write (.flat code vs) = .err := by
+  constructor
+  · rw [Rfc.parseTyped_flat _ _ _ _ hs,
+      Rfc.decode_all ks vs pre hok (schemaOf_safe hs) (Rfc.schemaOf_shape hs).1]
+    simp [hc]
+  · simp [RData.write, hs, hc]
+
+/-- (a) LOC (RFC 1876: "VERSION … must be zero"): a 16-octet RDATA whose first octet is not 0 is
+rejected, although its layout is fine. -/
+theorem loc_version_rejected (pre rd : Bytes) (hl : rd.length = 16) (b : UInt8)
+    (hb : rd.head? = some b) (hne : b ≠ 0) : parseTyped (pre ++ rd) pre.length .LOC = .err := by
+  obtain ⟨b0, b1, b2, b3, b4, b5, b6, b7, b8, b9, b10, b11, b12, b13, b14, b15, rfl⟩ :
+      ∃ b0 b1 b2 b3 b4 b5 b6 b7 b8 b9 b10 b11 b12 b13 b14 b15,
+        rd = [b0, b1, b2, b3, b4, b5, b6, b7, b8, b9, b10, b11, b12, b13, b14, b15] := by
+    match rd, hl with
+    | [b0, b1, b2, b3, b4, b5, b6, b7, b8, b9, b10, b11, b12, b13, b14, b15], _ =>
+      exact ⟨_, _, _, _, _, _, _, _, _, _, _, _, _, _, _, _, rfl⟩
+  simp only [List.head?_cons, Option.some.injEq] at hb
+  subst hb
+  let vs : List Val := [.int (deN [b0]), .int (deN [b1]), .int (deN [b2]), .int (deN [b3]),
+    .int (deN [b4, b5, b6, b7]), .int (deN [b8, b9, b10, b11]), .int (deN [b12, b13, b14, b15])]
+  have hs : schemaOf 29 = some [.int 1, .int 1, .int 1, .int 1, .int 4, .int 4, .int 4] := rfl
+  have henc : encAll [.int 1, .int 1, .int 1, .int 1, .int 4, .int 4, .int 4] vs
+      = [b0, b1, b2, b3, b4, b5, b6, b7, b8, b9, b10, b11, b12, b13, b14, b15] := by
+    have e1 : ∀ x : UInt8, beN 1 (deN [x]) = [x] := fun x => beN_deN [x]
+    have e4 : ∀ x y z w : UInt8, beN 4 (deN [x, y, z, w]) = [x, y, z, w] :=
+      fun x y z w => beN_deN [x, y, z, w]
+    simp only [vs, encAll, encField, e1, e4]
+    rfl
+  have hok : AllOK [.int 1, .int 1, .int 1, .int 1, .int 4, .int 4, .int 4] vs := by
+    refine ⟨deN_lt [b0], deN_lt [b1], deN_lt [b2], deN_lt [b3], deN_lt [b4, b5, b6, b7],
+      deN_lt [b8, b9, b10, b11], deN_lt [b12, b13, b14, b15], trivial⟩
+  have hc : flatCheck 29 vs = false := by
+    have : b0.toNat ≠ 0 := fun h => hne (UInt8.toNat_inj.mp (by simpa using h))
+    simp [vs, flatCheck, deN, this]
+  have := (check_failed_rejected pre hs hok hc).1
+  rw [henc] at this
+  exact this
+
+/-- (b) the ordering rule of one triple: with strict order, a key read at `pos` that is not
+greater than the previous key is an error (NSEC: `window_block`, SVCB: `SvcParamKey`) -/
+theorem key_not_increasing_rejected {d : Bytes} {kw lw prev pos : Nat}
+    (h : deN ((d.drop pos).take kw) ≤ prev) : tlvOne d kw lw true (some prev) pos = .err :=
+  Rfc.tlvOne_key_not_increasing h
+
+/-- lifted to the loop: whenever the keys of the encoded triples are not strictly increasing —
+wherever the order breaks — the field is rejected -/
+theorem unordered_triples_rejected (pre : Bytes) (kw lw : Nat) (hkl : 0 < kw + lw)
+    (xs : List (Nat × Bytes)) (hx : ∀ x ∈ xs, x.1 < 256 ^ kw ∧ x.2.length < 256 ^ lw)
+    (hno : ¬ KeysIncreasing xs) :
+    decField (pre ++ Spec.encTriples kw lw xs) (.tlvs kw lw true) pre.length = .err := by
+  have := Rfc.tlvs_unordered_rejected kw lw hkl xs pre [] [] hx
+    (fun h => hno h.1)
+  rw [← Rfc.encTlvs_eq_encTriples]
+  simp only [List.append_nil] at this
+  simp [decField, this]
+
+/-- in particular when the second key is not greater than the first -/
+theorem second_key_not_greater_rejected (pre : Bytes) (kw lw : Nat) (hkl : 0 < kw + lw)
+    (k1 k2 : Nat) (v1 v2 : Bytes) (h1 : k1 < 256 ^ kw ∧ v1.length < 256 ^ lw)
+    (h2 : k2 < 256 ^ kw ∧ v2.length < 256 ^ lw) (hle : k2 ≤ k1) :
+    tlvsLoop (pre ++ Spec.encTriples kw lw [(k1, v1), (k2, v2)]) kw lw true pre.length [] = .err := by
+  have := Rfc.tlvs_unordered_rejected kw lw hkl [(k1, v1), (k2, v2)] pre [] []
+    (by intro x hx; simp at hx; rcases hx with rfl | rfl <;> assumption)
+    (by intro h; have := h.1.1; simp at this; omega)
+  rw [← Rfc.encTlvs_eq_encTriples]
+  simpa using this
+
+/-- NSEC (RFC 4034 4.1.2: "Blocks are present in the NSEC RR RDATA in increasing numerical
+order"): windows not strictly increasing -/
+theorem nsec_unordered_rejected (pre : Bytes) (n : Name) (hn : Name.WF n)
+    (xs : List (Nat × Bytes)) (hx : ∀ x ∈ xs, x.1 < 256 ∧ x.2.length < 256)
+    (hno : ¬ KeysIncreasing xs) :
+    parseTyped (pre ++ (Spec.encLabels n ++ Spec.encTriples 1 1 xs)) pre.length .NSEC = .err := by
+  have h1 := rfc_decode_field_name pre (Spec.encTriples 1 1 xs) false n hn
+  have h2 := unordered_triples_rejected (pre ++ Spec.encLabels n) 1 1 (by decide) xs
+    (by simpa using hx) hno
+  have hp := Rfc.parseTyped_flat (pre ++ (Spec.encLabels n ++ Spec.encTriples 1 1 xs)) pre.length
+    47 _ rfl
+  have e : TYPE.ofCode 47 = .NSEC := rfl
+  rw [e] at hp
+  rw [hp]
+  simp only [decAll, h1, Out.bind_ok]
+  rw [show pre.length + (Spec.encLabels n).length = (pre ++ Spec.encLabels n).length by simp,
+    show pre ++ (Spec.encLabels n ++ Spec.encTriples 1 1 xs)
+      = (pre ++ Spec.encLabels n) ++ Spec.encTriples 1 1 xs by simp, h2]
+  rfl
+
+/-- SVCB / HTTPS (RFC 9460 2.2: "SvcParamKeys SHALL appear in increasing numeric order"; the
+library's parser insists on strictly increasing keys) -/
+theorem svcb_unordered_rejected (pre : Bytes) (prio : Nat) (hp : prio < 65536) (n : Name)
+    (hn : Name.WF n) (xs : List (Nat × Bytes)) (hx : ∀ x ∈ xs, x.1 < 65536 ∧ x.2.length < 65536)
+    (hno : ¬ KeysIncreasing xs) :
+    parseTyped (pre ++ (Spec.octetsOf 2 prio ++ (Spec.encLabels n ++ Spec.encTriples 2 2 xs)))
+      pre.length .SVCB = .err ∧
+    parseTyped (pre ++ (Spec.octetsOf 2 prio ++ (Spec.encLabels n ++ Spec.encTriples 2 2 xs)))
+      pre.length .HTTPS = .err := by
+  have h0 := rfc_decode_field_int pre (Spec.encLabels n ++ Spec.encTriples 2 2 xs) 2 prio
+    (by simpa using hp)
+  have h1 := rfc_decode_field_name (pre ++ Spec.octetsOf 2 prio) (Spec.encTriples 2 2 xs) false n hn
+  have h2 := unordered_triples_rejected ((pre ++ Spec.octetsOf 2 prio) ++ Spec.encLabels n) 2 2
+    (by decide) xs (by simpa using hx) hno
+  have hl : (Spec.octetsOf 2 prio).length = 2 := by rw [← Rfc.beN_eq_octetsOf]; simp
+  have key : decAll (pre ++ (Spec.octetsOf 2 prio ++ (Spec.encLabels n ++ Spec.encTriples 2 2 xs)))
+      [.int 2, .name false, .tlvs 2 2 true] pre.length = .err := by
+    simp only [decAll, h0, Out.bind_ok]
+    rw [show pre.length + 2 = (pre ++ Spec.octetsOf 2 prio).length by simp [hl],
+      show pre ++ (Spec.octetsOf 2 prio ++ (Spec.encLabels n ++ Spec.encTriples 2 2 xs))
+        = (pre ++ Spec.octetsOf 2 prio) ++ (Spec.encLabels n ++ Spec.encTriples 2 2 xs) by simp,
+      h1]
+    simp only [Out.bind_ok]
+    rw [show (pre ++ Spec.octetsOf 2 prio).length + (Spec.encLabels n).length
+        = ((pre ++ Spec.octetsOf 2 prio) ++ Spec.encLabels n).length by simp; omega,
+      show (pre ++ Spec.octetsOf 2 prio) ++ (Spec.encLabels n ++ Spec.encTriples 2 2 xs)
+        = ((pre ++ Spec.octetsOf 2 prio) ++ Spec.encLabels n) ++ Spec.encTriples 2 2 xs by simp,
+      h2]
+    rfl
+  have hp64 := Rfc.parseTyped_flat
+    (pre ++ (Spec.octetsOf 2 prio ++ (Spec.encLabels n ++ Spec.encTriples 2 2 xs))) pre.length 64 _ rfl
+  have hp65 := Rfc.parseTyped_flat
+    (pre ++ (Spec.octetsOf 2 prio ++ (Spec.encLabels n ++ Spec.encTriples 2 2 xs))) pre.length 65 _ rfl
+  have e64 : TYPE.ofCode 64 = .SVCB := rfl
+  have e65 : TYPE.ofCode 65 = .HTTPS := rfl
+  rw [e64] at hp64
+  rw [e65] at hp65
+  rw [hp64, hp65, key]
+  exact ⟨rfl, rfl⟩
+
+/-- (c) an inner length that overruns the RDATA: a <character-string> whose length octet announces
+more than what remains -/
+theorem charstr_overrun_rejected {d : Bytes} {pos : Nat} (h : pos < d.length)
+    (hl : d[pos].toNat + pos + 1 > d.length) : CharStr.parse d pos = .err :=
+  Rfc.charStr_overrun h hl
+
+/-- the (key, length) head of a triple does not fit in what remains -/
+theorem triple_head_overrun_rejected {d : Bytes} {kw lw : Nat} {strict : Bool} {prev : Option Nat}
+    {pos : Nat} (h : pos + kw + lw > d.length) : tlvOne d kw lw strict prev pos = .err :=
+  Rfc.tlvOne_overrun_head h
+
+/-- the length field of a triple announces more than what remains -/
+theorem triple_value_overrun_rejected {d : Bytes} {kw lw : Nat} {strict : Bool}
+    {prev : Option Nat} {pos : Nat}
+    (h : pos + kw + lw + deN ((d.drop (pos + kw)).take lw) > d.length) :
+    tlvOne d kw lw strict prev pos = .err :=
+  Rfc.tlvOne_overrun_value h
+
+/-- TXT: after any number of whole strings, a string whose length octet `lb` announces more than
+the `rest` of the RDATA -/
+theorem txt_overrun_rejected (pre : Bytes) (ss : List Bytes) (lb : UInt8) (rest : Bytes)
+    (hs : ∀ s ∈ ss, s.length ≤ 255) (hbad : lb.toNat > rest.length) :
+    parseTyped (pre ++ (Spec.encStrings ss ++ lb :: rest)) pre.length .TXT = .err := by
+  have hp := Rfc.parseTyped_flat (pre ++ (Spec.encStrings ss ++ lb :: rest)) pre.length 16 _ rfl
+  have e : TYPE.ofCode 16 = .TXT := rfl
+  rw [e] at hp
+  rw [hp, ← Rfc.encStrs_eq_encStrings]
+  simp [decAll, decField, Rfc.strs_overrun_rejected pre ss lb rest [] hs hbad]
+
+/-- NSEC windows / SVCB parameters: after any number of whole triples, a fragment that is not a
+whole triple (`Rfc.BadTriple`: head does not fit, or the length field overruns) -/
+theorem triples_overrun_rejected (pre : Bytes) (kw lw : Nat) (strict : Bool) (hkl : 0 < kw + lw)
+    (xs : List (Nat × Bytes)) (bad : Bytes)
+    (hx : ∀ x ∈ xs, x.1 < 256 ^ kw ∧ x.2.length < 256 ^ lw)
+    (hinc : strict = true → KeysIncreasing xs) (hbad : Rfc.BadTriple kw lw bad) :
+    decField (pre ++ (Spec.encTriples kw lw xs ++ bad)) (.tlvs kw lw strict) pre.length = .err := by
+  rw [← Rfc.encTlvs_eq_encTriples]
+  simp [decField, Rfc.tlvs_overrun_rejected pre kw lw strict hkl xs bad hx hinc hbad]
+
+/-- the same for the option loop of OPT -/
+theorem options_overrun_rejected (pre : Bytes) (xs : List (Nat × Bytes)) (bad : Bytes)
+    (hx : ∀ x ∈ xs, x.1 < 65536 ∧ x.2.length < 65536) (hbad : Rfc.BadTriple 2 2 bad) :
+    optLoop (pre ++ (Spec.Rfc6891.encodeOptions xs ++ bad)) pre.length [] = .err := by
+  rw [← Rfc.encTlvs22_eq_encodeOptions]
+  exact Rfc.opt_overrun_rejected pre xs bad [] hx hbad
+
+/-- "rejected" is always `Err`, never a panic -/
+theorem reject_never_panics (d : Bytes) (pos : Nat) (t : TYPE) (ht : t ≠ .OPT)
+    (hp : pos ≤ d.length) : parseTyped d pos t ≠ .panic :=
+  parseTyped_ne_panic d pos t ht hp
+
+/-! ### examples: the hypotheses are satisfiable, on concrete non-trivial values -/
+
+/-- MX 10 mx.a. -/
+example : AllOK [.int 2, .name true] [.int 10, .name [[109, 120], [97]]] := by decide
+example : RData.write (.flat 15 [.int 10, .name [[109, 120], [97]]])
+      = .ok [0, 10, 2, 109, 120, 1, 97, 0] ∧
+    Spec.encode 15 [.num 10, .labels [[109, 120], [97]]] = some [0, 10, 2, 109, 120, 1, 97, 0] := by
+  decide
+example : RData.write (.flat 15 [.int 10, .name [[109, 120], [97]]])
+      = .ok (encAll [.int 2, .name true] [.int 10, .name [[109, 120], [97]]]) ∧
+    Spec.encode 15 ([.int 10, .name [[109, 120], [97]]].map Val.toSpec)
+      = some (encAll [.int 2, .name true] [.int 10, .name [[109, 120], [97]]]) :=
+  rfc_encoding (code := 15) rfl (by decide) rfl
+example (pre : Bytes) : parseTyped (pre ++ [0, 10, 2, 109, 120, 1, 97, 0]) pre.length .MX
+    = .ok (.flat 15 [.int 10, .name [[109, 120], [97]]], pre.length + 8) :=
+  rfc_parse (code := 15) pre rfl (by decide) rfl (by decide)
+
+/-- NSEC next = a., windows 0 (bitmap 0x40 = type A) and 1 (3 octets) -/
+example : RData.write (.flat 47 [.name [[97]], .tlvs [(0, [0x40]), (1, [0, 0, 0x80])]])
+      = .ok [1, 97, 0, 0, 1, 0x40, 1, 3, 0, 0, 0x80] ∧
+    Spec.encode 47 [.labels [[97]], .triples [(0, [0x40]), (1, [0, 0, 0x80])]]
+      = some [1, 97, 0, 0, 1, 0x40, 1, 3, 0, 0, 0x80] := by decide
+example (pre : Bytes) : parseTyped (pre ++ [1, 97, 0, 0, 1, 0x40, 1, 3, 0, 0, 0x80]) pre.length .NSEC
+    = .ok (.flat 47 [.name [[97]], .tlvs [(0, [0x40]), (1, [0, 0, 0x80])]], pre.length + 11) :=
+  rfc_parse (code := 47) pre rfl (by decide) rfl (by decide)
+/-- the same windows in the wrong order are rejected -/
+example (pre : Bytes) : parseTyped (pre ++ [1, 97, 0, 1, 3, 0, 0, 0x80, 0, 1, 0x40]) pre.length .NSEC
+    = .err :=
+  nsec_unordered_rejected pre [[97]] (by decide) [(1, [0, 0, 0x80]), (0, [0x40])] (by decide)
+    (by decide)
+
+/-- TXT "ab" "" and a third string announcing 5 octets with 2 present -/
+example (pre : Bytes) : parseTyped (pre ++ [2, 97, 98, 0, 5, 1, 2]) pre.length .TXT = .err :=
+  txt_overrun_rejected pre [[97, 98], []] 5 [1, 2] (by decide) (by decide)
+
+/-- LOC with VERSION 1 -/
+example (pre : Bytes) :
+    parseTyped (pre ++ [1, 0x12, 0x16, 0x13, 0x89, 0x17, 0x2D, 0xD0, 0x70, 0xBE, 0x15, 0xF0, 0, 0x98,
+      0x8D, 0x20]) pre.length .LOC = .err :=
+  loc_version_rejected pre _ rfl 1 rfl (by decide)
+
+/-- IPSECKEY 10 2 (IPv4 192.0.2.38) with a 3-octet key (RFC 4025 section 3.2 style) -/
+example : RData.write (.ipseckey 10 2 (.v4 0xC0000226) [1, 2, 3])
+      = .ok [10, 1, 2, 192, 0, 2, 38, 1, 2, 3] ∧
+    Spec.encodeIpseckey 10 2 (.ipv4 0xC0000226) [1, 2, 3] = [10, 1, 2, 192, 0, 2, 38, 1, 2, 3] := by
+  decide
 
 end Dns
